@@ -1,6 +1,7 @@
 package sym
 
 import (
+	"bytes"
 	"fmt"
 	"go/token"
 	"go/types"
@@ -105,6 +106,12 @@ type Engine struct {
 	fnIDs     map[*ssa.Function]int32
 	typeIDs   map[string]int32
 	PoolPrecise bool
+	fnCount   map[*ssa.Function]int64
+	canonBufs []*bytes.Buffer
+	canonNums [][]int32
+	sortedGlobals []*ssa.Global
+	globalNames map[*ssa.Global]string
+	typePtrIDs map[types.Type]int32
 	DecideProfile map[string]int
 	Witnesses []Witness
 }
@@ -134,7 +141,7 @@ func NewEngine(prog *ssa.Program, cfg Config) (*Engine, error) {
 	}
 	e := &Engine{Prog: prog, tb: tb, sol: sol, Cfg: cfg, infos: map[*ssa.Function]*fnInfo{},
 		Reached: map[string]int64{}, Asserts: map[string]*AssertStat{}, Funcs: map[string]int64{}, Stubs: map[string]int64{},
-		CutsTotal: map[string]int64{}, KnownHit: map[string]bool{}, typeCache: map[string]types.Type{}}
+		CutsTotal: map[string]int64{}, KnownHit: map[string]bool{}, typeCache: map[string]types.Type{}, fnCount: map[*ssa.Function]int64{}, globalNames: map[*ssa.Global]string{}, typePtrIDs: map[types.Type]int32{}}
 	if e.Cfg.MaxSteps == 0 {
 		e.Cfg.MaxSteps = 3000000
 	}
@@ -421,4 +428,13 @@ func (e *Engine) assume(st *State, c *Term) {
 	} else if r == ResUnknown {
 		e.inconclusive("solver unknown on assume")
 	}
+}
+
+// FuncCounts returns the executed functions (full name -> instructions executed).
+func (e *Engine) FuncCounts() map[string]int64 {
+	out := map[string]int64{}
+	for fn, n := range e.fnCount {
+		out[fn.String()] += n
+	}
+	return out
 }
